@@ -106,6 +106,9 @@ func Load(repo string, whole bool, patterns ...string) (*Program, error) {
 		}
 	})
 	for _, pk := range pkgs {
+		if len(pk.GoFiles) == 0 {
+			continue // test-only package
+		}
 		if len(pk.Syntax) == 0 {
 			errs = append(errs, "no syntax for "+pk.PkgPath)
 		}
